@@ -13,7 +13,7 @@
    answer: see C12_criterion_stops_needs_single_result.  The hypothesis-free forms are C12_start_sees_generations
    and C12_criterion_last_answer. *)
 From QV Require Import Common.Base Solver.Loop Solver.Ledger Solver.Ledger_proofs Solver.Loop_proofs Solver.Exact_proofs
-  Solver.SolverCheck.
+  Solver.Shape_proofs Solver.SolverCheck.
 From Coq Require Import QArith.
 
 Section C12.
@@ -92,6 +92,25 @@ Section C12.
     trace cfg wd fuel = t1 ++ TStart op pop led ng est :: t2 -> last_crit t1 <> Some true.
   Proof. exact (criterion_last_answer Ind R Pop Op W Init Dist AuxEv AV best_value best_ind). Qed.
 
+  (* single_result (and counted) hold in every world whose operator applications report what the EVQE operators report
+     (nothing / one count / one count then one result), so for those worlds the two clauses need no hypothesis *)
+  Theorem C12_evqe_shape_single_result : forall (cfg : config) (wd : world) fuel,
+    (forall op w pop, evqe_shape R (fst (fst (w_apply _ _ _ _ _ _ _ _ _ wd op w pop)))) ->
+    single_result (trace cfg wd fuel) /\ counted R (events_of (trace cfg wd fuel)).
+  Proof. exact (evqe_shape_hypotheses Ind R Pop Op W Init Dist AuxEv AV best_value best_ind). Qed.
+
+  Theorem C12_max_generations_evqe : forall (cfg : config) (wd : world) fuel G,
+    (forall op w pop, evqe_shape R (fst (fst (w_apply _ _ _ _ _ _ _ _ _ wd op w pop)))) ->
+    cfg_max_generations _ _ _ _ _ cfg = Some G ->
+    (Z.of_nat (n_results (trace cfg wd fuel)) <= Z.max 0 G)%Z.
+  Proof. exact (max_generations_evqe Ind R Pop Op W Init Dist AuxEv AV best_value best_ind). Qed.
+
+  Theorem C12_criterion_stops_evqe : forall (cfg : config) (wd : world) fuel t1 r bi bv t2,
+    (forall op w pop, evqe_shape R (fst (fst (w_apply _ _ _ _ _ _ _ _ _ wd op w pop)))) ->
+    trace cfg wd fuel = t1 ++ TCrit r bi bv true :: t2 ->
+    existsb is_start t2 = false.
+  Proof. exact (criterion_stops_evqe Ind R Pop Op W Init Dist AuxEv AV best_value best_ind). Qed.
+
   (* no population evaluated: the solve does not return a result; if the loop itself ended (no operator exception,
      fuel not exhausted) what it raises is the nothing-evaluated exception *)
   Theorem C12_raises_when_empty : forall (cfg : config) (wd : world) fuel tr out,
@@ -108,6 +127,9 @@ Print Assumptions C12_max_generations_nonpositive.
 Print Assumptions C12_budget.
 Print Assumptions C12_criterion_stops.
 Print Assumptions C12_criterion_last_answer.
+Print Assumptions C12_evqe_shape_single_result.
+Print Assumptions C12_max_generations_evqe.
+Print Assumptions C12_criterion_stops_evqe.
 Print Assumptions C12_raises_when_empty.
 
 (* Why single_result is there: one application reports two results, the criterion answers 'terminate' for the first
